@@ -36,6 +36,10 @@ class FakeContainer:
 
     @property
     def parts(self):
+        # like Container.get_parts() of an in-memory container: every known name, deleted ones included
+        return list(self._parts.keys())
+
+    def present(self):
         return [k for k, v in self._parts.items() if v is not None]
 
     def __bool__(self):
@@ -59,7 +63,7 @@ class Doc(Document):
 
 def consistent(doc):
     listed = [str(p) for p in doc.manifest.get_paths()]
-    present = [p for p in doc.container.parts if p not in ("mimetype", "META-INF/manifest.xml")]
+    present = [p for p in doc.container.present() if p not in ("mimetype", "META-INF/manifest.xml")]
     for p in present:
         if listed.count(p) != 1:
             return False
@@ -83,7 +87,7 @@ def step(doc, op, i):
         b.mime_type = "image/png"
         doc._add_binary_part(b)
     elif op == 1:
-        if path in doc.container.parts:
+        if path in doc.container.present():
             doc.del_part(path)
     elif op == 2:
         doc.manifest.add_full_path(path, "image/png")
